@@ -384,7 +384,7 @@ func (e *Enc) structSort(t types.Type, u *types.Struct) string {
 	e.structs[name] = true
 	var fs []string
 	for i := 0; i < u.NumFields(); i++ {
-		fs = append(fs, fmt.Sprintf("(%s %s)", q(fmt.Sprintf("%s.%s", name, u.Field(i).Name())), e.sortOf(u.Field(i).Type())))
+		fs = append(fs, fmt.Sprintf("(%s %s)", q(fmt.Sprintf("%s.%s", name, fieldSelName(u, i))), e.sortOf(u.Field(i).Type())))
 	}
 	if len(fs) == 0 {
 		e.declare("sort "+name, fmt.Sprintf("(declare-datatypes ((%s 0)) (((%s))))", q(name), q("mk_"+name)))
@@ -410,7 +410,17 @@ func (e *Enc) structSel(t types.Type, i int) string {
 		name = fmt.Sprintf("S_anon%d", e.typeID(t))
 	}
 	u := t.Underlying().(*types.Struct)
-	return q(fmt.Sprintf("%s.%s", name, u.Field(i).Name()))
+	return q(fmt.Sprintf("%s.%s", name, fieldSelName(u, i)))
+}
+
+// fieldSelName: blank fields (`_ noCopy`, `_ [0]*T`) may repeat inside one struct; their
+// accessors are numbered so that the datatype declaration stays well-formed.
+func fieldSelName(u *types.Struct, i int) string {
+	n := u.Field(i).Name()
+	if n == "_" {
+		return fmt.Sprintf("_%d", i)
+	}
+	return n
 }
 
 // typeID: stable small integer for a concrete Go type (used as dynamic type tag)
